@@ -24,6 +24,9 @@ theorem shapes_version : True :=
   have _ := Semver.Gen.shape_VersionDiff
   trivial
 
+/-- imports and item names are what the translation takes them to be (marker emitted by the translator) -/
+theorem names_as_expected : True := Semver.Gen.names_as_expected
+
 theorem partial_cmp_Version : True := Semver.Gen.partial_cmp_is_cmp_Version
 
 /-! ### std equalities on the model's types -/
